@@ -250,6 +250,41 @@ pub fn cmd_defrag_pause(args: &[String]) -> i32 {
     0
 }
 
+/// defrag-hold <n> <out.ndjson>: what a parser HOLDS after very many records of one defragmentation (n empty continuation records; n one-byte
+/// continuation records of a message declared 2^24 - 1 bytes long): the bytes held since the parser was created, next to the buffer length
+pub fn cmd_defrag_hold(args: &[String]) -> i32 {
+    let n: usize = args[0].parse().unwrap_or(100000);
+    let mut out = BufWriter::new(std::fs::File::create(&args[1]).expect("create"));
+    static FIRST_SMALL: [u8; 4] = [20, 0, 0, 200];
+    static FIRST_HUGE: [u8; 4] = [11, 255, 255, 255];
+    static EMPTY: [u8; 0] = [];
+    static ONE: [u8; 1] = [7];
+    for (label, first, cont) in [("empty_continuations", &FIRST_SMALL[..], &EMPTY[..]), ("one_byte_continuations", &FIRST_HUGE[..], &ONE[..])] {
+        crate::observe::alloc_begin();
+        let mut p = TlsRecordsParser::default();
+        let mk = |d: &'static [u8]| TlsRawRecord { hdr: TlsRecordHeader { record_type: TlsRecordType(22), version: TlsVersion(0x0303), len: d.len() as u16 }, data: d };
+        let r0 = crate::observe::guarded(|| p.parse_record(mk(first)).map(|_| ()).is_err());
+        let mut panicked = r0.is_err();
+        let mut not_incomplete = 0u64;
+        for _ in 0..n {
+            if panicked { break; }
+            match crate::observe::guarded(|| matches!(p.parse_record(mk(cont)), Err(tls_parser::nom::Err::Incomplete(_)))) {
+                Ok(true) => {}
+                Ok(false) => not_incomplete += 1,
+                Err(_) => panicked = true,
+            }
+        }
+        let held = crate::observe::alloc_live();
+        let buflen = p.verif_defrag_buffer().len();
+        let inprog = p.defrag_in_progress();
+        drop(p);
+        let _ = crate::observe::alloc_end();
+        writeln!(out, "{}", json!({"run": label, "records": n, "held": held, "buflen": buflen, "inprog": inprog, "panicked": panicked, "not_incomplete": not_incomplete})).unwrap();
+    }
+    out.flush().unwrap();
+    0
+}
+
 /// defrag-stream <out.ndjson>: one real-size stream.  A handshake header declaring 2^24-1 bytes,
 /// then 16640-byte records until the 10 MiB limit refuses, then the exact boundary, a foreign type,
 /// a nocopy call; one compact event per call for the length-only trace specification.
